@@ -123,6 +123,7 @@ type h3script struct {
 	gates     [6]chan struct{} // 0: read 64 KiB, 1: read all, 2: head, 3: first body part, 4: rest
 	acks      [6]chan struct{}
 	upload    bool
+	early     bool
 	bodiless  bool
 	sawCancel atomic.Bool
 	ended     chan struct{}
@@ -198,7 +199,7 @@ func (o *h3origin) serve(w http.ResponseWriter, r *http.Request) {
 		}
 	}
 	ack := func(i int) { close(s.acks[i]) }
-	if s.upload {
+	if s.upload && !s.early {
 		if !wait(0) {
 			return
 		}
@@ -273,6 +274,7 @@ type h3spec struct {
 	Upload   bool   `json:"upload,omitempty"`
 	Bodiless bool   `json:"bodiless,omitempty"`
 	BadHost  bool   `json:"bad_host,omitempty"`     // SendRequestHeader fails (no injection): is the body closed?
+	EarlyRsp bool   `json:"early_resp,omitempty"`   // the handler answers without consuming the 4 MiB upload: the sender is parked in stream.Write
 	Limit    bool   `json:"stream_limit,omitempty"` // the peer allows one request stream and a held request uses it: OpenStreamSync waits
 }
 
@@ -363,6 +365,26 @@ func h3steps(sp h3spec) []h3step {
 		}
 		return waitAck(r.sc.arrived, "the request did not reach the handler")
 	}})
+	if sp.EarlyRsp {
+		st = append(st, h3step{"response head sent while the upload is stalled (the peer does not read it)", []string{"ZResp true"}, func(r *h3run) error {
+			close(r.sc.gates[2])
+			if err := waitAck(r.sc.acks[2], "handler did not write the head"); err != nil {
+				return err
+			}
+			return waitCh(r.call.hdrDone, "call did not return after the response head")
+		}})
+		st = append(st, h3step{"1000 body bytes sent and read", []string{"ZData"}, func(r *h3run) error {
+			close(r.sc.gates[3])
+			if err := waitAck(r.sc.acks[3], "handler did not write"); err != nil {
+				return err
+			}
+			if !settle(func() bool { return r.call.nread.Load() >= 1000 }) {
+				return errors.New("caller did not receive the body bytes")
+			}
+			return nil
+		}})
+		return st
+	}
 	if sp.Upload {
 		st = append(st, h3step{"64 KiB of the request body read by the peer", nil, func(r *h3run) error {
 			close(r.sc.gates[0])
@@ -475,6 +497,7 @@ func runH3(sp h3spec, kind string, pos int, racy bool) (o h3obs) {
 	defer gate.close()
 	respBody := bytes.Repeat([]byte("0123456789"), respBodyLen/10)
 	r := &h3run{origin: origin, spec: sp, gate: gate, sc: newH3Script(sp.Upload, sp.Bodiless, respBody)}
+	r.sc.early = sp.EarlyRsp
 	origin.script = r.sc
 	defer r.sc.openAll()
 	c := req.C().DisableAutoDecode().EnableInsecureSkipVerify().EnableForceHTTP3().SetTimeout(0)
@@ -579,7 +602,7 @@ func runH3(sp h3spec, kind string, pos int, racy bool) (o h3obs) {
 		}
 		o.Harness = ""
 	}
-	o.Complete = pos == len(steps) && !racy
+	o.Complete = pos == len(steps) && !racy && !sp.EarlyRsp
 	t0 := time.Now()
 	if racy {
 		o.RacyLab = append([]string{}, steps[pos-1].labels...)
